@@ -139,6 +139,16 @@ CHECKS = {
         "Members of a main program are tolerated in workspace/symbol (fortls treats a program like a module); deeper-nested outline entries are not required.",
         "DESIGN.md §3 C04",
     ),
+    "C13": (
+        "exploration",
+        "metamorphic testing: the same generated abstract program rendered in a plain and in a drawn layout; normalised dumps compared by entity/statement",
+        "Outline entries, the definition target of every occurrence (mapped back to the occurrence it lands on) and diagnostics of the "
+        "re-laid-out program (LF/CRLF/CR, trailing blanks, comments, blank lines, keyword/identifier case, END spellings, & continuation with and "
+        "without leading &, ; joining incl. declarations) must equal those of the plain rendering; differences are classified by the local "
+        "context of the statement involved (use site / target declaration / base object declaration / type definition continued or joined).",
+        "Both renderings come from one abstract statement list (same meaning by construction; transformed text sampled through gfortran). indent <= 4.",
+        "DESIGN.md §3 C13",
+    ),
 }
 
 NOT_YET = "check not built yet in this session (work in progress; see DESIGN.md §3 for the planned generator and oracle)"
